@@ -5,6 +5,10 @@ EXTENSIONS = [
     dict(name="tlc+AccessFlags", path="/verif/spec/AccessFlags.tla",
          text="X01: access_flags of classes / fields / methods as the DEX format defines them per kind and the words they are rendered with; every single bit and pair of bits replayed through "
               "ClassDefItem / EncodedField / EncodedMethod.get_access_flags_string() (vf/props/x01.py); finding: one table is used for all kinds (volatile -> 'bridge', transient -> 'varargs', annotation unnamed)"),
+    dict(name="tlc+SessionStore", path="/verif/spec/SessionStore.tla",
+         text="X02: a Session as a dictionary determined by the set of files added since the last reset (add DEX / add APK / reset histories of <= 3 calls, TLC: SetDetermined); every history replayed on "
+              "a real Session (vf/props/x02.py), isOpen / get_objects_dex / get_all_apks / get_nb_strings validated by SessionStore_Trace; finding: the answers depend on the order of the add calls when a DEX "
+              "file is added on its own and inside an APK (analyzed_vms is keyed by the DEX digest and overwritten)"),
 ]
 
 
